@@ -12,9 +12,15 @@ pub enum CodecId {
     MDna,
     MIupac,
     Degen,
+    /// hand-written user codec, 3 bits (harness/src/custom.rs)
+    Tri,
+    /// hand-written user codec, 7 bits
+    Sept,
 }
 
-pub const ALL_CODECS: [CodecId; 7] = [
+/// the seven built-in codecs plus two hand-written user codecs of widths 3 and 7 bits: the generic
+/// sequence code must not depend on the width being one of 1, 2, 4, 5, 6, 8
+pub const ALL_CODECS: [CodecId; 9] = [
     CodecId::Dna,
     CodecId::Iupac,
     CodecId::Amino,
@@ -22,7 +28,11 @@ pub const ALL_CODECS: [CodecId; 7] = [
     CodecId::MDna,
     CodecId::MIupac,
     CodecId::Degen,
+    CodecId::Tri,
+    CodecId::Sept,
 ];
+
+pub const BUILTIN_CODECS: [CodecId; 7] = [CodecId::Dna, CodecId::Iupac, CodecId::Amino, CodecId::Text, CodecId::MDna, CodecId::MIupac, CodecId::Degen];
 
 impl CodecId {
     pub fn name(self) -> &'static str {
@@ -34,6 +44,8 @@ impl CodecId {
             CodecId::MDna => "masked_dna",
             CodecId::MIupac => "masked_iupac",
             CodecId::Degen => "degenerate",
+            CodecId::Tri => "custom3",
+            CodecId::Sept => "custom7",
         }
     }
     pub fn model(self) -> &'static Model {
@@ -48,6 +60,8 @@ impl CodecId {
             CodecId::MDna => 4,
             CodecId::MIupac => 5,
             CodecId::Degen => 1,
+            CodecId::Tri => 3,
+            CodecId::Sept => 7,
         }
     }
 }
@@ -124,6 +138,10 @@ impl Model {
     }
     pub fn comp_seq(&self, codes: &[u8]) -> Vec<u8> {
         codes.iter().map(|&c| self.comp_code(c)).collect()
+    }
+    /// every bit pattern of the codec's width decodes to a symbol of the parse alphabet
+    pub fn all_patterns_valid(&self) -> bool {
+        (0..(1u16 << self.bits)).all(|p| self.decode_bits(p as u8).map_or(false, |c| self.syms.iter().any(|s| s.0 == c)))
     }
     /// bytes the parser accepts
     pub fn accepted_bytes(&self) -> Vec<u8> {
@@ -369,6 +387,24 @@ fn build(id: CodecId) -> Model {
                 .collect();
             Model { id, bits: 5, syms, alts: vec![], ascii_alias: vec![], all_bits: false, comp: Some(comp) }
         }
+        CodecId::Tri => Model {
+            id,
+            bits: 3,
+            syms: vec![(0, b'A'), (1, b'C'), (2, b'G'), (3, b'T'), (4, b'N'), (5, b'-')],
+            alts: vec![(6, 5), (7, 5)],
+            ascii_alias: vec![],
+            all_bits: false,
+            comp: None,
+        },
+        CodecId::Sept => Model {
+            id,
+            bits: 7,
+            syms: vec![(0, b'*'), (1, b'A'), (2, b'C'), (4, b'G'), (8, b'T'), (16, b'R'), (32, b'Y'), (64, b'K'), (77, b'S'), (100, b'W'), (126, b'q'), (127, b'M')],
+            alts: vec![],
+            ascii_alias: vec![],
+            all_bits: false,
+            comp: None,
+        },
         CodecId::Degen => Model {
             id,
             bits: 1,
